@@ -2,7 +2,6 @@ package props
 
 import (
 	"encoding/hex"
-	"reflect"
 
 	"verifsim/engine"
 	"verifsim/world"
@@ -43,7 +42,7 @@ func pickCfg(r *engine.PRNG) world.InstCfg {
 	return world.Configs[r.Intn(len(world.Configs))]
 }
 
-var c07Families = []string{"F1", "F2", "F2", "F3", "F3", "F4", "F4", "F5", "F6", "FJ", "F8", "F9"}
+var c07Families = []string{"F1", "F2", "F2", "F3", "F3", "F4", "F4", "F5", "F6", "FJ", "F8", "F9", "FN", "FM"}
 
 // usableTypes lists the types of a family usable under cfg.
 func usableTypes(fam string, cfg world.InstCfg, includeBad bool) []string {
@@ -58,7 +57,7 @@ func usableTypes(fam string, cfg world.InstCfg, includeBad bool) []string {
 			}
 			continue
 		}
-		if cfg.ProtoArrays && ti.T.Kind() == reflect.Slice && !world.TopOK(&world.TypeInfo{T: ti.T, Top: true}, cfg) {
+		if !world.ShapeOK(ti, cfg) {
 			continue
 		}
 		out = append(out, ti.Name)
@@ -190,7 +189,7 @@ func GenC07(seed uint64, idx int) *Scenario {
 				pick = []string{focus}
 			}
 			op, ok := genC07Op(sc, &r, icfg, pick, fam)
-			if ok && !world.TopOK(&world.TypeInfo{T: typeInfo(op.Type).T, Top: true}, icfg) && !typeInfo(op.Type).Bad {
+			if ok && !world.ShapeOK(typeInfo(op.Type), icfg) && !typeInfo(op.Type).Bad {
 				ok = false
 			}
 			if !ok {
@@ -265,7 +264,7 @@ func C07SweepJobs(seed uint64, quick bool) []SweepJob {
 	return append(jobs, c07SteadyJobs(seed, quick)...)
 }
 
-var steadyTypes = []string{"MapKS", "MapKV", "Maps", "MapSI", "map[string]*Node", "Sym", "SymBox", "Wide", "V2", "JDoc", "MTarget", "RA"}
+var steadyTypes = []string{"MapKS", "MapKV", "Maps", "MapSI", "map[string]*Node", "Sym", "SymBox", "Wide", "V2", "JDoc", "MTarget", "RA", "Nest", "map[string][]int"}
 
 // c07SteadyJobs: the sweep for the steady state. Task A first lives through a
 // short history on the shared instance (damaged records - aborted operations -
@@ -283,7 +282,7 @@ func c07SteadyJobs(seed uint64, quick bool) []SweepJob {
 	sites := append(append([]string{"op.begin"}, steadySites...), "slice.varint")
 	for _, cfg := range []world.InstCfg{{}, {ProtoArrays: true}} {
 		for _, tn := range steadyTypes {
-			if !world.TopOK(&world.TypeInfo{T: typeInfo(tn).T, Top: true}, cfg) {
+			if !world.ShapeOK(typeInfo(tn), cfg) {
 				continue
 			}
 			for k := 0; k < reps; k++ {
